@@ -85,11 +85,15 @@ theorem allInv_step {y : SysS} (h : CInvS y) (op : Op) (hok : OpOKS y op) (hcon 
         ⟨id0, sl0, s', x0, hlook, hr0, _, _, hI', hp', _, _, hfr, hans, he⟩ |
         ⟨id0, sl0, s', hlook, _, hv, _⟩
     · rw [he]; exact ⟨A1, A2⟩
-    · rw [he] at hprev hlvl ⊢
+    · obtain ⟨st2, _, e2, _, he⟩ := he
+      rw [he] at hprev hlvl ⊢
       rw [hlook] at hc
       have hfin : v.isNan = false := hc.1
-      refine ⟨?_, A2⟩
+      refine ⟨?_, fun t id k p x hs r h1 h2 => by
+        change st2.isLabeled t r = true; rw [isLabeled_congr e2]; exact A2 t id k p x hs r h1 h2⟩
       intro t id sl hlk r h1 h2
+      change st2.isLabeled t r = true
+      rw [isLabeled_congr e2]
       change alookup t y.sched.pending = some (id, sl) at hlk
       rw [lastOf_aset] at h2
       by_cases het : t = t0
@@ -207,7 +211,13 @@ theorem allInv_step {y : SysS} (h : CInvS y) (op : Op) (hok : OpOKS y op) (hcon 
           obtain ⟨rfl, rfl, rfl⟩ := hnew
           have hf := slotAt_functional hs hans
           simp at hf
-  | complete t0 r0 v => rw [stepCS_complete h t0 r0 v hok]; exact ⟨A1, A2⟩
+  | complete t0 r0 v =>
+    obtain ⟨st2, _, e2, _, _, he⟩ := stepCS_complete h t0 r0 v hok
+    rw [he]
+    exact ⟨fun t id sl hlk r h1 h2 => by
+        change st2.isLabeled t r = true; rw [isLabeled_congr e2]; exact A1 t id sl hlk r h1 h2,
+      fun t id k p x hs r h1 h2 => by
+        change st2.isLabeled t r = true; rw [isLabeled_congr e2]; exact A2 t id k p x hs r h1 h2⟩
   | remove t0 => exact ⟨A1, A2⟩
   | takeRemovable => exact ⟨A1, A2⟩
 
